@@ -2,10 +2,13 @@
    projections.  ExtrOcamlBasic only; N/positive stay inductive. *)
 Require Extraction.
 Require Import ExtrOcamlBasic.
-From DV Require Import Lib.Base Registry.RegTypes Registry.Registry Spec.RegistrySpec.
+From DV Require Import Lib.Base Registry.RegTypes Registry.Registry Registry.Driver Registry.Transaction Spec.RegistrySpec Spec.DriverSpec.
+From DV Require Policy.Policy.
 Extraction Language OCaml.
 Extraction "model_registry.ml"
   init_bus step find_conn c_owned b_conns b_services
   get_name_owner name_has_owner list_queued_owners list_names
   sinit spec_step literal as_implemented s_names sget
-  spec_owner spec_has_owner spec_queued exception_trigger.
+  spec_owner spec_has_owner spec_queued exception_trigger
+  dinit dstep d_bus d_unique resolve render who_str kstr dspec_step spec_reload Policy.Policy.rule_new Policy.Policy.r_name Policy.Policy.r_prefix
+  stage_all texec tcancel.
